@@ -117,7 +117,9 @@ def run(ctx):
     # A hash that stays counted after its task was redefined makes an old call node look current.  The pairing obligations are C37.1's.
     from . import C37 as _c37
 
-    _c37.run(_BorrowCtx(ctx, {"C37.1": "C03.6"}))
+    from ..report import BorrowCtx
+
+    _c37.run(BorrowCtx(ctx, {"C37.1": "C03.6"}))
     # subtree rows for one call node are written in one transaction
     rc = db.func("RedunBackendDb.record_call_node")
     loops = [st for st in ast.walk(rc) if isinstance(st, ast.For) and any(call_name(c) == "CallSubtreeTask" for c in calls_in(st))]
@@ -378,37 +380,3 @@ def subtree_repair_obligation(rule, repo):
         db.rel,
         rc.lineno,
     )
-
-
-class _NullRule:
-    def check(self, *a, **k):
-        return True
-
-    def good(self, *a, **k):
-        pass
-
-    def violation(self, *a, **k):
-        pass
-
-
-class _BorrowCtx:
-    """Runs another property's rules and keeps only the named ones, re-filed under this property's rule id."""
-
-    def __init__(self, ctx, keep: dict):
-        self._ctx, self._keep = ctx, keep
-
-    def rule(self, rid, desc, floor=1):
-        if rid in self._keep:
-            return self._ctx.rule(self._keep[rid], f"{desc} (the obligations of {rid})", floor)
-        return _NullRule()
-
-    def assume(self, *a, **k):
-        pass
-
-    def __getattr__(self, name):
-        return getattr(self._ctx, name)
-
-    def __setattr__(self, name, value):
-        if name in ("_ctx", "_keep"):
-            object.__setattr__(self, name, value)
-        # attributes the borrowed rules set on their own context (paths_enumerated, ...) are dropped
